@@ -76,7 +76,8 @@ LibMembers(m) == {"a", "c", "A", "C", "W", "R"} \cup (IF m = "sub/m2" THEN {"s",
 \*       "unqtype"   .{type A}        the TYPE only
 \*       "typealias" .{type T as L}   the type T of the library under the name L (m1's own type T, if declared, is a
 \*                                    different declaration with the original spelling)
-UnqKinds == {"none", "unq", "unqalias", "unqctor", "unqtype", "typealias"}
+\*       "unqctoralias" .{A as E}  the constructor A under the name E (A itself is then NOT in scope)
+UnqKinds == {"none", "unq", "unqalias", "unqctor", "unqctoralias", "unqtype", "typealias"}
 Imp(m, as, u) == [m |-> m, as |-> as, u |-> u]
 \* the accessor an import brings into scope: the alias if there is one, else the last path segment - `m2` for both modules
 AccOf(i) == IF i.as # "" THEN i.as ELSE "m2"
@@ -146,6 +147,7 @@ Imported(name) ==
     IF name = "c" /\ UnqAt("unq") # 0 THEN LibVal(UnqMod("unq"), "c")
     ELSE IF name = "d" /\ UnqAt("unqalias") # 0 THEN LibVal(UnqMod("unqalias"), "c")
     ELSE IF name = "A" /\ UnqAt("unqctor") # 0 THEN LibVal(UnqMod("unqctor"), "A")
+    ELSE IF name = "E" /\ UnqAt("unqctoralias") # 0 THEN LibVal(UnqMod("unqctoralias"), "A")
     ELSE 0
 TypeItem == LET idx == {i \in 1..Len(items) : items[i].k = "type"} IN IF idx = {} THEN 0 ELSE CHOOSE i \in idx : TRUE
 HasType  == TypeItem # 0
@@ -164,9 +166,9 @@ ModuleValue(name) == IF ItemId(name) # 0 THEN ItemId(name) ELSE IF CtorId(name) 
 Resolve(name) == IF Local(name) # 0 THEN Local(name) ELSE ModuleValue(name)
 
 \* `c` is written whether or not it is imported (unbound otherwise); `d` only when some import declares it
-RefNames == Names \cup {"c"} \cup (IF UnqAt("unqalias") # 0 THEN {"d"} ELSE {})
+RefNames == Names \cup {"c"} \cup (IF UnqAt("unqalias") # 0 THEN {"d"} ELSE {}) \cup (IF UnqAt("unqctoralias") # 0 THEN {"E"} ELSE {})
 \* (a local may be spelled like a module accessor - q, r, m2 - see shadow_acc_*: then it is a visible value name)
-Visible  == {n \in Names \cup SpareNames \cup {"c", "d", "T", "V", "Ok", "Z", "A", "q", "r", "m2"} : Resolve(n) # 0}
+Visible  == {n \in Names \cup SpareNames \cup {"c", "d", "T", "V", "Ok", "Z", "A", "E", "q", "r", "m2"} : Resolve(n) # 0}
 \* module accessors in scope for `name.`: every import brings its module in under the last segment of its path, `as q`
 \* under the alias ONLY; AccMod: the module an accessor stands for
 Accessors == {AccOf(imps[k]) : k \in 1..Len(imps)}
@@ -174,7 +176,7 @@ AccMod(acc) == imps[CHOOSE k \in 1..Len(imps) : AccOf(imps[k]) = acc].m
 VisibleModules == Accessors
 HeaderLabel ==
     LET UL(u) == CASE u = "none" -> "" [] u = "unq" -> ".{c}" [] u = "unqalias" -> ".{c as d}" [] u = "unqctor" -> ".{A}"
-                   [] u = "unqtype" -> ".{type A}" [] u = "typealias" -> ".{type T as L}"
+                   [] u = "unqctoralias" -> ".{A as E}" [] u = "unqtype" -> ".{type A}" [] u = "typealias" -> ".{type T as L}"
         IL(i) == i.m \o UL(i.u) \o (IF i.as # "" THEN " as " \o i.as ELSE "")
     IN IF Len(imps) = 0 THEN "none" ELSE IF Len(imps) = 1 THEN IL(imps[1]) ELSE IL(imps[1]) \o " + " \o IL(imps[2])
 
@@ -293,6 +295,8 @@ ImportToks(i) ==
              [] i.u = "unqalias" -> <<Plain("."), Plain("{"), Tok("c", "impname", V("c"), {}), Plain("as"),
                                       Tok("d", "impalias", V("c"), {}), Plain("}")>>
              [] i.u = "unqctor" -> <<Plain("."), Plain("{"), Tok("A", "impname", V("A"), {}), Plain("}")>>
+             [] i.u = "unqctoralias" -> <<Plain("."), Plain("{"), Tok("A", "impname", V("A"), {}), Plain("as"),
+                                          Tok("E", "impalias", V("A"), {}), Plain("}")>>
              [] i.u = "unqtype" -> <<Plain("."), Plain("{"), Plain("type"), Tok("A", "impname", base + OffTypeA, {}), Plain("}")>>
              [] i.u = "typealias" -> <<Plain("."), Plain("{"), Plain("type"), Tok("T", "impname", base + OffTypeT, {}), Plain("as"),
                                        Tok("L", "impalias", base + OffTypeT, {}), Plain("}")>>)
